@@ -408,12 +408,17 @@ func (r *reader) initNodes(tr io.Reader) error {
 							if err != nil {
 								return fmt.Errorf("failed to get directory bucket %d: %w", id, err)
 							}
-							found = true
-							ent.NumLink = readNumLink(b)
-							// The attributes of the earlier entry (or of the implicitly
-							// created directory) must not leak into the new ones.
-							if err := resetAttr(b); err != nil {
-								return fmt.Errorf("failed to reset attr of %d(%q): %w", id, ent.Name, err)
+							// Only an existing directory is overwritten. A node of another
+							// type that had this name (or the destination of a hardlink of
+							// this name) is replaced by a new node.
+							if mode, _ := binary.Uvarint(b.Get(bucketKeyMode)); os.FileMode(uint32(mode)).IsDir() {
+								found = true
+								ent.NumLink = readNumLink(b)
+								// The attributes of the earlier entry (or of the implicitly
+								// created directory) must not leak into the new ones.
+								if err := resetAttr(b); err != nil {
+									return fmt.Errorf("failed to reset attr of %d(%q): %w", id, ent.Name, err)
+								}
 							}
 						}
 					}
